@@ -20,7 +20,7 @@ def main():
         fast = "--fast" in sys.argv
         if fast:
             cmd += ["--deselect", "tests/test_setup.py", "--ignore", "tests/test_setup.py"]
-        p = subprocess.run(cmd, cwd="/repo", env=env, stdout=subprocess.PIPE, stderr=subprocess.STDOUT, text=True)
+        p = subprocess.run(cmd, cwd=os.environ.get("VERIF_BASELINE_CWD", "/repo"), env=env, stdout=subprocess.PIPE, stderr=subprocess.STDOUT, text=True)
         tail = "\n".join(p.stdout.splitlines()[-5:])
         passed = set()
         root = ET.parse(out).getroot()
